@@ -25,7 +25,9 @@ META = {
     "level_note": "Proved about the hand-written model Shard/Dump.v (restore = transcription of restore.go after the io.ReadFull repair), "
                   "tied differentially (Dump bytes, Restore count/failCount/error class, target shard contents as a set of byte strings) "
                   "on random shard contents with/without write-cache, random chunkings incl. 1-byte and empty reads and EOF returned "
-                  "together with data, and random corruption. Modelled, not verified: object.Unmarshal and Shard.Put are abstract "
+                  "together with data, and random corruption; objects at the size-class boundaries (encoded size 4 KiB, 64 KiB, 1 MiB and other powers of two, -5..+1 bytes) "
+                  "are compared byte-exactly inside Coq as well: they carry low-entropy payloads and the real bytes written by Shard.Dump / stored by Restore are passed as a lossless "
+                  "run-length literal (DumpCheck.unrle), nothing about them is evaluated outside Coq except the driver's equality record = object put. Modelled, not verified: object.Unmarshal and Shard.Put are abstract "
                   "functions (unm, sink) instantiated per case from an oracle table measured on the real code; the storage of the bytes "
                   "handed to Put (covered by the set comparison of the target shard's contents only in the tie). partial: streams whose "
                   "framing itself is damaged (size fields, truncation) are covered by the model-vs-implementation tie only, no theorem; "
@@ -109,6 +111,16 @@ def dump_lists_put_objects(c):
     if set(c["perm"]) != set(range(len(c["objs"]))):
         return False
     return all(d[off:off + ln] == hx(c["objs"][p]) for p, (off, ln) in zip(c["perm"], c["dump_recs"]))
+
+
+def size_hist(cases):
+    h = {}
+    for c in cases:
+        for sz in c.get("obj_sizes", []):
+            b = "<256" if sz < 256 else "256-4090" if sz < 4091 else "4 KiB-5..+1" if sz <= 4097 else "4098-65530" if sz < 65531 else \
+                "64 KiB-5..+1" if sz <= 65537 else "65538-1048570" if sz < 1048571 else "1 MiB-5..+1" if sz <= 1048577 else ">1 MiB+1"
+            h[b] = h.get(b, 0) + 1
+    return h
 
 
 def dump_diagnosis(c):
@@ -257,7 +269,10 @@ def run(ctx):
     ctx.cov.update({
         "evaluations": len(cases),
         "distinct_nontrivial": len(nontriv),
-        "rule": "random shard contents (0-6 objects, 3 containers, payload 0-400 bytes quick / -1800 thorough, write-cache on/off, flushed partly), "
+        "rule": "size-class cases first (every run: objects of encoded size 64 KiB-5..+1 and 4 KiB-5..+1 complete, one object at 1 MiB+d and one at P+d' with d, d', P = 512 B..512 KiB "
+                "sweeping with the seed, random in-between sizes 600 B..266 kB, each with a small object beside them; low-entropy payloads so that the real dump bytes go to Coq losslessly as a run-length literal; "
+                "chunkings with few chunks: whole, halves, blocks of 4096/32768/65535/65536/65537/1 MiB(+1), cuts at/inside/after every size field; clean 3 of 4, else bodies damaged); then "
+                "random shard contents (0-6 objects, 3 containers, payload 0-400 bytes quick / -1800 thorough, write-cache on/off, flushed partly), "
                 "Dump, then damage kind (clean 40%, bodies 30%, magic 10%, framing 20%) and one of 8 chunking styles (whole, 1-byte, tiny, with empty reads, "
                 "medium, halves, mixed, few big), EOF-with-data 25%, ignoreErrors 50%; non-trivial = at least one object and a chunk boundary strictly "
                 "inside a record; distinct by (stream, sizes, flags)",
@@ -266,4 +281,7 @@ def run(ctx):
         "hist_kind": hist_kind, "hist_err_class": hist_err, "hist_chunk_count": hist_chunks,
         "hist_source_write_cache": {"on": sum(1 for c in cases if c["wc"]), "off": sum(1 for c in cases if not c["wc"])},
         "duplicate_records_in_dump": sum(1 for c in cases if len(c["perm"]) != len(set(c["perm"]))),
+        "size_class_cases": sum(1 for c in cases if c.get("big")),
+        "size_class_object_sizes": sorted(sz for c in cases if c.get("big") for sz in c.get("obj_sizes", []) if sz >= 500),
+        "hist_object_size": size_hist(cases),
     })
